@@ -141,9 +141,12 @@ def fam_history(ctx, rng):
         cfg["policy"] = str(rng.choice(["frequency_domain_resampling", "keeping_smallest_time_step", "keeping_majority_time_step"]))
     hist = str(rng.choice(["twice", "two-methods", "interleaved-settings"]))
     ctx.describe(n_recordings=len(items), dt=dt, n=n, history=hist, **cfg)
+    from_files = bool(rng.random() < 0.5)           # recordings read from one file per component carry a LIST of file names
     recs = [gen.make_recording(np.array(it[0]), np.array(it[1]), np.array(it[2]), it[3],
-                               degrees_from_north=float(rng.uniform(0, 360)), meta={"site": "A", "list": [1, 2]})
-            for it in items]
+                               degrees_from_north=float(rng.uniform(0, 360)),
+                               meta=dict({"site": "A", "list": [1, 2]},
+                                         **({"file name(s)": [f"stn{i:02d}_{c}.mseed" for c in "enz"]} if from_files else {})))
+            for i, it in enumerate(items)]
     st = make_settings(cfg)
     before_r = snap.snap(recs)
     before_s = snap.snap(st)
